@@ -61,7 +61,7 @@ def _random(draw):
             perm = draw(st.permutations(list(range(n))))
             pos = {v: i for i, v in enumerate(perm)}
             edges = [[a, b] if pos[a] < pos[b] else [b, a] for a, b in edges if a != b]
-        return {"kind": "graph", "n": n, "edges": edges, "names": draw(st.sampled_from([True, False, "colliding", "odd"])), "insertion": list(draw(st.permutations(list(range(n))))),
+        return {"kind": "graph", "n": n, "edges": edges, "names": draw(st.sampled_from([True, False, "colliding", "odd", "negative"])), "insertion": list(draw(st.permutations(list(range(n))))),
                 "lists": draw(st.booleans())}
     nf = draw(st.integers(1, 5))
     fams = [f"g{i}" for i in range(nf)]
@@ -104,7 +104,8 @@ def check(case):
     pool = ["a", "b", "ab", "ba", "aa", "abb", "bab"]
     odd = [-1, None, 0, -2, 2, -3, 1]  # any hashable is a vertex: negative integers next to small ones, None
     name = (lambda v: f"v{v}") if case.get("names") is True else ((lambda v: pool[v % 7]) if case.get("names") == "colliding" and n <= 7 else (
-        (lambda v: odd[v % 7]) if case.get("names") == "odd" and n <= 7 else (lambda v: v)))
+        (lambda v: odd[v % 7]) if case.get("names") == "odd" and n <= 7 else (
+            (lambda v: [-1, n - 1, 0, -2, n - 2, 1, 2][v % 7]) if case.get("names") == "negative" and 3 <= n <= 7 else (lambda v: v))))
     # a graph is a dictionary: the order in which its vertices were inserted is presentation, not content (the
     # insertion order is a permutation derived from the case; successors are given as sets or, when `lists`, as lists)
     order = list(range(n))
